@@ -289,7 +289,7 @@ def _admissible(spec):
 
 
 # ---------------------------------------------------------------------------
-HIER = ['P', 'U2', 'AB', 'SH', 'L', 'T1', 'DI', 'DP', 'UI']
+HIER = ['P', 'U2', 'AB', 'SH', 'L', 'T1', 'DI', 'DP', 'UI', 'AR']
 
 
 def enum_tagged(maxn):
